@@ -24,11 +24,11 @@ func vListTree(depth int, next *int, level int, want *[][2]int) listXML {
 // an item without text of its own.
 //
 //symgo:harness prop=C16 kernel=K3-odt-lists
-//symgo:desc harness-built listXML (XML unmarshalling outside the claim): 1..2 items per list, nesting depth <= 2, every item with or without its own paragraph and with or without a nested list (enumerated): ParseList returns exactly the items that have text, in document order, each at its nesting level. (Enumerated structure; the solver is not involved)
+//symgo:desc harness-built listXML (XML unmarshalling outside the claim): 1..2 items per list, nesting depth <= 1 (quick) / 2 (thorough), every item with or without its own paragraph and with or without a nested list (enumerated): ParseList returns exactly the items that have text, in document order, each at its nesting level. (Enumerated structure; the solver is not involved)
 func H_C16_odt_nested_lists() {
 	next := -1
 	var want [][2]int
-	l := vListTree(2, &next, 0, &want)
+	l := vListTree(1+vTier(), &next, 0, &want)
 	pl := NewListParser(nil).ParseList(l, 0)
 	vAssert("item-count", len(pl.Items) == len(want))
 	for i, w := range want {
